@@ -490,7 +490,8 @@ def gen_others(r, n):
         elif k == 1:
             host = r.choice(['www.', '', 'api.']) + r.choice(DOMS) + '.' + r.choice(TLDS)
             proto = r.choice(['http://', 'https://', 'ftp://'])
-            path = r.choice(['', '/', '/index.html', '/a/b?c=d&e=1', '/x_y-z', ':8080/p', '#frag'])
+            # '!' inside a path / hashbang route: one URL pattern allows it, another stops at it — the longer match must win
+            path = r.choice(['', '/', '/index.html', '/a/b?c=d&e=1', '/x_y-z', ':8080/p', '#frag', '/a!b', '/#!/user', '/p!q/r'])
             out.append(('url', proto + host + path))
         elif k == 2:
             out.append(('hashtag', '#' + r.choice(WORDS) + r.choice(['', '2024', '_x'])))
@@ -498,7 +499,15 @@ def gen_others(r, n):
             out.append(('mention', '@' + r.choice(WORDS) + r.choice(['', '99', '_x'])))
         else:
             a, b, c = r.randint(200, 989), r.randint(200, 998), r.randint(1000, 9998)
-            out.append(('phone', r.choice(['(%d) %d-%d', '%d-%d-%d', '%d %d %d', '+1 %d %d %d', '1-%d-%d-%d']) % (a, b, c)))
+            lay = r.choice(['(%d) %d-%d', '%d-%d-%d', '%d %d %d', '+1 %d %d %d', '1-%d-%d-%d', 'intl'])
+            if lay == 'intl':
+                # international '00' exit-code prefix and an 'x' extension: several phone patterns match a prefix of these
+                d7 = r.randint(1000000, 9999998)
+                out.append(('phone', r.choice(['00 44 %d %d' % (a % 900 + 100, d7), '0049%d %d' % (a % 900 + 100, d7 * 10 + 8),
+                                               '00420 %d %d %d' % (a % 900 + 100, b % 900 + 100, c % 900 + 100),
+                                               '0044 20 %d %d' % (c, c + 1), '%d-%d-%d x%d' % (a, b, c, r.randint(10, 9999))])))
+            else:
+                out.append(('phone', lay % (a, b, c)))
     return out
 
 
